@@ -197,9 +197,24 @@ UP_FAULTS = ("undecryptable-frame", "undecodable-frame", "rejected-stanza", "app
 
 
 def _do_send_ok(top, disp):
+    """a send completes: its stanza arrives at the peer (one whole frame that decodes to exactly the stanza sent)"""
+    from sx.vals import SymSeq
+    from yowsup.layers.coder.decoder import ReadDecoder
+    from yowsup.layers.coder.tokendictionary import TokenDictionary
     before = len(disp.sent)
-    top.toLower(_good_entity())
-    return len(disp.sent) > before
+    ent = _good_entity()
+    top.toLower(ent)
+    new = disp.sent[before:]
+    if not new or any(isinstance(c, SymSeq) for c in new):
+        return len(new) > 0
+    data = b"".join(bytes(c) for c in new)
+    if len(data) < 4 or int.from_bytes(data[:3], "big") != len(data) - 3 or data[3:4] != b"\x45":
+        return False
+    try:
+        node = ReadDecoder(TokenDictionary()).getProtocolTreeNode(bytearray(data[4:]))
+    except Exception:
+        return False
+    return SC.strict_eq(node, ent.toProtocolTreeNode())
 
 
 def _do_recv_ok(net, top):
